@@ -64,18 +64,24 @@ structure WorldOK (w : World) (l0 l1 : Level) (spec : List String) : Prop where
   hspec : spec ≠ []
   hstream : LoaderStream l0.dataType w.superName none (loaderStream w l0 spec)
 
-theorem concatLoader_source {w : World} {l0 l1 : Level} {spec : List String} (h : WorldOK w l0 l1 spec) :
+theorem concatLoader_source' {w : World} {l0 : Level} {rest : List Level} {spec : List String}
+    (hl : w.levels = l0 :: rest) (hre : l0.rechunk = false)
+    (hruns : ∀ rid ∈ spec, ∃ raw, w.src.lookup rid = some raw ∧ raw ≠ [] ∧ isSuperId rid = false ∧ ∀ c ∈ raw, RawOK c) :
     concatLoader w spec [] 0 = .ok (loaderStream w l0 spec) := by
   unfold concatLoader
   have : spec.mapM (fun rid => subrunLoaded w [] rid 0) = .ok (spec.map fun rid => (rawOf w rid).map (loaderOf l0 rid)) := by
     apply mapM_ok_of_forall
     intro rid hr
-    obtain ⟨raw, hs, hne, hid, hok⟩ := h.hruns rid hr
+    obtain ⟨raw, hs, hne, hid, hok⟩ := hruns rid hr
     simp only [subrunLoaded, List.lookup_nil]
-    rw [subrunStored_source (by rw [h.hlevels]) h.hre hs hne hid hok]
+    rw [subrunStored_source hl hre hs hne hid hok]
     simp [rawOf, hs]
   rw [this]
   simp [bind, Except.bind, pure, Except.pure, loaderStream, List.flatMap]
+
+theorem concatLoader_source {w : World} {l0 l1 : Level} {spec : List String} (h : WorldOK w l0 l1 spec) :
+    concatLoader w spec [] 0 = .ok (loaderStream w l0 spec) :=
+  concatLoader_source' h.hlevels h.hre h.hruns
 
 theorem loaderStream_ne {w : World} {l0 l1 : Level} {spec : List String} (h : WorldOK w l0 l1 spec) :
     loaderStream w l0 spec ≠ [] := by
